@@ -1,45 +1,26 @@
 #!/bin/sh
-# run every seed against the checks expected to see it (own property first); results accumulate in seeded/*/meta.json
+# run every seed against its own property's check (plus the other checks known to see it); results accumulate in
+# seeded/*/meta.json.  Never run other checks against /repo while this is running: the seeds are applied in place.
 cd /verif
 run() { s=$1; shift; python3 tools/seedrun.py $s "$@" 2>&1 | grep -E "exit|does not apply|refusing"; }
-run C01-a C01 C18
-run C01-b C01
-run C02-a C02
-run C02-b C02
-run C03-a C03 C19
-run C03-b C03
-run C04-a C04 C03
-run C04-b C04
-run C05-a C05
-run C05-b C05
-run C06-a C06
-run C06-b C06
-run C07-a C07 C11
-run C07-b C07 C06 C19
-run C08-a C08 C06 C19
-run C08-b C08 C09
-run C09-a C09
-run C09-b C09 C11 C10
-run C10-a C10 C11
-run C10-b C10
-run C11-a C11
-run C11-b C11 C09
-run C12-a C12
-run C12-b C12
-run C13-a C13
-run C13-b C13
-run C14-a C14
-run C14-b C14 C06
-run C15-a C15
-run C15-b C15
-run C16-a C16
-run C16-b C16
-run C17-a C17
-run C17-b C17
-run C18-a C18
-run C18-b C18
-run C19-a C19
-run C19-b C19
-run C20-a C20
-run C20-b C20
+for p in 01 02 03 04 05 06 07 08 09 10 11 12 13 14 15 16 17 18 19 20; do
+  for v in a b c d; do
+    [ -d seeded/C$p-$v ] && run C$p-$v C$p
+  done
+done
+# cross detections recorded in MUTATIONS.md
+run C01-a C18
+run C03-a C19
+run C04-a C03
+run C07-b C06 C19
+run C08-a C06 C19
+run C08-b C09
+run C09-b C11 C10
+run C10-a C11
+run C11-b C09
+run C14-b C06
+run C14-d C06
+run C17-c C06 C19
+run C19-d C06
+run C11-d C09
 echo MATRIX-DONE
